@@ -266,12 +266,12 @@ def builtin_zero_guard(R, P):
 NARROW_FILES = ("math.inl", "math.gcc_overflow.inl", "math.gcc_builtin.inl", "math.fallback.inl", "math.gcc_x64_asm.inl", "clock.inl")
 
 
-def narrowing(R, P):
+def narrowing(R, P, files=None, floor=4, hooks=None, rule="NARROW"):
     """NARROW: no implicit integer conversion in the arithmetic helpers drops bits: wherever a wider value is implicitly converted
     to a narrower integer type (a narrower local, parameter or result), the value provably fits the narrower type (NUM at the
     conversion, all operand values).  Explicit casts are the author's stated truncation and are not this rule's business."""
     n_sites = 0
-    for f in sorted((f for f in P.by_key.values() if getattr(f, "blocks", None) and any(f.file.endswith("/" + x) for x in NARROW_FILES)), key=lambda f: (f.file, f.line)):
+    for f in sorted((f for f in P.by_key.values() if getattr(f, "blocks", None) and any(f.file.endswith("/" + x) for x in (files or NARROW_FILES))), key=lambda f: (f.file, f.line)):
         sites, seen = [], set()
         for b in f.blocks.values():
             for el in b.elems:
@@ -286,8 +286,11 @@ def narrowing(R, P):
         if not sites:
             continue
         R.fn(f)
-        h = MathHooks()
-        h.use_summaries = True
+        if hooks is None:
+            h = MathHooks()
+            h.use_summaries = True
+        else:
+            h = hooks
         num = Num(f, P, h)
         try:
             sts = num.states_at({el["id"] for el, _, _, _ in sites})
@@ -304,10 +307,10 @@ def narrowing(R, P):
                     ok, why = False, "%r" % (v,)
                     break
             n_sites += 1
-            R.check(ok and k >= 1, "NARROW", "%s:%s" % (f.name, f.show(n)[:50]), "%s:%d in %s()" % (f.file.replace("/repo/", ""), n.get("loc", [0])[0], f.name),
+            R.check(ok and k >= 1, rule, "%s:%s" % (f.name, f.show(n)[:50]), "%s:%d in %s()" % (f.file.replace("/repo/", ""), n.get("loc", [0])[0], f.name),
                     "the %d-bit value fits the %d-bit type it is converted to" % (ft["w"], t["w"]),
                     "a %d-bit value (%s) is implicitly converted to a %d-bit type and is not known to fit: the upper bits are dropped (for operands at or above 2^%d the helper computes on a different number)" % (ft["w"], why or "no state", t["w"], t["w"]))
-    R.require(n_sites >= 4, "only %d implicit narrowing conversions examined (confirmed: 8, the promoted 8/16-bit min/max)" % n_sites)
+    R.require(n_sites >= floor, "only %d implicit narrowing conversions examined (floor %d)" % (n_sites, floor))
 
 
 def minmax(R, P):
